@@ -779,7 +779,11 @@ impl XmlAttribute {
     }
 
     fn namespace(&self) -> bool {
-        self.prefix().map(|p| p == "xmlns").unwrap_or_default() || self.local_name() == "xmlns"
+        // Only `xmlns:p` and the unprefixed `xmlns` declare namespaces, `p:xmlns` does not.
+        match self.prefix() {
+            Some(prefix) => prefix == "xmlns",
+            None => self.local_name() == "xmlns",
+        }
     }
 }
 
@@ -2416,7 +2420,7 @@ impl XmlElement {
         for attr in self.namespace_attributes().iter() {
             let namespace_name = attr.borrow().normalized_value()?;
 
-            if attr.borrow().local_name() == "xmlns" {
+            if attr.borrow().prefix().is_none() {
                 items.push(node(XmlNamespace {
                     prefix: None,
                     namespace_name,
